@@ -126,8 +126,8 @@ def check_lockset(rep, db, f, inst, gname, lockname):
                         obtained[r] = min(srcs)
                     if isinstance(e.c, tuple) and e.c[:1] == ("addr",):
                         obtained[e.c[1]] = min(srcs)
-            if e.kind == "CALL" and q.short(e.a) in ("unique_lock", "shared_lock", "lock_guard") and any(is_global(a, "::" + lockname) for a in e.b):
-                mode = "shared" if q.short(e.a) == "shared_lock" else "unique"
+            if e.kind == "CALL" and q.short(e.a) in q.ALL_GUARDS and any(is_global(a, "::" + lockname) for a in e.b):
+                mode = "shared" if q.short(e.a) in q.SHARED_GUARDS else "unique"
                 held.append(((e.extra or {}).get("ret"), mode))
                 session += 1
                 continue
